@@ -95,6 +95,29 @@ def pairs : List (List Char) → List (List Char × List Char)
   | k :: v :: rest => (k, v) :: pairs rest
   | _ => []
 
+/-- all results, or the first failure -/
+def collect : List PRes → Except String (List (List Char))
+  | [] => .ok []
+  | .ok s :: rest => (collect rest).map (s :: ·)
+  | .panic :: _ => .error "err panic"
+  | .unsupported :: rest => match collect rest with
+    | .error "err panic" => .error "err panic"
+    | _ => .error "err unsupported"
+
+def showList (l : List (List Char)) : String := Drv.joinWith "," (l.map Drv.hex)
+
+/-- `<ws> <home|none> <luarocks> <nenv> <k v>… rest` -/
+def parseEnv (args : List String) : Option (Env × List String) :=
+  match args with
+  | ws :: home :: lr :: n :: rest => do
+    let ws ← Drv.unhex ws
+    let home ← if home == "none" then some none else (Drv.unhex home).map some
+    let lr ← Drv.unhex lr
+    let n ← n.toNat?
+    let envs ← (rest.take (2 * n)).mapM Drv.unhex
+    pure (⟨ws, home, pairs envs, lr⟩, rest.drop (2 * n))
+  | _ => none
+
 def handle (op : String) (args : List String) : Option String :=
   match op, args with
   | "load", n :: toks => do
@@ -112,6 +135,24 @@ def handle (op : String) (args : List String) : Option String :=
     let p ← Drv.unhex p
     let envs ← envs.mapM Drv.unhex
     pure (showPRes (prePath ⟨ws, home, pairs envs, lr⟩ p))
+  | "prepaths", args => do
+    let (e, rest) ← parseEnv args
+    let ps ← rest.mapM Drv.unhex
+    pure (match collect (prePaths e ps) with
+      | .ok l => "ok " ++ showList (dedupFirst [] l)
+      | .error m => m)
+  | "prepathcfg", args => do
+    let (e, rest) ← parseEnv args
+    match rest with
+    | path :: dirs => do
+      let path ← Drv.unhex path
+      let dirs ← dirs.mapM Drv.unhex
+      let (r, ds) := preItemConfig e path dirs
+      pure (match collect (r :: ds) with
+        | .ok (p :: l) => "ok " ++ Drv.hex p ++ "|" ++ showList l
+        | .ok [] => "err unsupported"
+        | .error m => m)
+    | [] => none
   | _, _ => none
 
 end Drv.Json
